@@ -12,7 +12,7 @@
 From Coq Require Import List ZArith String.
 Import ListNotations.
 From Verif Require Import Common.Base Common.JsepNumeral Model.JsepMid Model.JsepMidSpec
-  Proofs.JsepMid Proofs.JsepMidGen Proofs.JsepMidWit.
+  Proofs.JsepMid Proofs.JsepMidGen Proofs.JsepMidWit Proofs.JsepMidInitial.
 Open Scope string_scope.
 
 (* the design witness: remote offer with one audio section mid "1"; answer;
@@ -60,6 +60,18 @@ Theorem c06_partial : forall ops,
   forall s o d s', In (s, o, ODesc (Ok d), s') (trace ops) -> gen_guard s o -> c06_holds d.
 Proof. exact c06_partial_lemma. Qed.
 Print Assumptions c06_partial.
+
+(* with no guard at all: every description a connection generates before it
+   has been given a remote description (any interleaving of AddTransceiver,
+   Stop, CreateDataChannel, CreateOffer, CreateAnswer, SetLocalDescription)
+   satisfies C06; mids are then "0", "1", ... and the data section's Itoa(len) is
+   the next numeral.  The bound only says the history is shorter than MaxInt64. *)
+Theorem c06_before_remote_description : forall ops,
+  (forall ty d, ~ In (SetRemote ty d) ops) ->
+  (Z.of_nat (List.length ops) <= max_int)%Z ->
+  forall d, In d (generated ops) -> c06_holds d.
+Proof. exact c06_before_remote_lemma. Qed.
+Print Assumptions c06_before_remote_description.
 
 (* the invariant behind it: in every such history the transceivers' set mids
    stay pairwise distinct *)
